@@ -1,6 +1,7 @@
 package main
 
 import (
+	"sort"
 	"fmt"
 	"go/constant"
 	"os"
@@ -1440,6 +1441,36 @@ func (x *Exec) ifaceMethodValue(recv Term, method string, env *Env) (Term, bool)
 	if len(impls) == 0 {
 		return Term{}, false
 	}
+	// the symbolic evaluation of every implementation is expensive (each one allocates, formats, ...): do it once per
+	// receiver, method and version of the field heaps it can read
+	var sig strings.Builder
+	sig.WriteString(recv.S + "|" + method + "|" + typeKeyShort(recv.T))
+	if st := env.state(); st != nil {
+		var ks []string
+		for k := range st.vars {
+			if strings.HasPrefix(k, "Hf.") || strings.HasPrefix(k, "Hp.") || strings.HasPrefix(k, "HA.") || strings.HasPrefix(k, "HM") {
+				ks = append(ks, k)
+			}
+		}
+		sort.Strings(ks)
+		for _, k := range ks {
+			sig.WriteString("|" + k + "=" + st.vars[k].S)
+		}
+	}
+	if x.methEval == nil {
+		x.methEval = map[string]Term{}
+	}
+	if t, ok := x.methEval[sig.String()]; ok {
+		return t, true
+	}
+	t, ok := x.ifaceMethodValueUncached(recv, method, env, impls)
+	if ok {
+		x.methEval[sig.String()] = t
+	}
+	return t, ok
+}
+
+func (x *Exec) ifaceMethodValueUncached(recv Term, method string, env *Env, impls []*ssa.Function) (Term, bool) {
 	var resT types.Type
 	type alt struct {
 		tag int
@@ -1493,6 +1524,29 @@ func (x *Exec) ifaceMethodValue(recv Term, method string, env *Env) (Term, bool)
 	out := app(f, recv.S) // unknown dynamic types (implementations outside pint): uninterpreted
 	for i := len(alts) - 1; i >= 0; i-- {
 		out = mkIte(app("=", app("i.tag", recv.S), intLit(int64(alts[i].tag))), alts[i].val.S, out)
+	}
+	// the dispatch term is large (one alternative per implementation): name it once per distinct term, so that a
+	// contract mentioning check.String() twenty times does not repeat it twenty times in every script
+	if len(out) > 400 {
+		closed := true
+		for id := range identSet(out) {
+			if strings.HasPrefix(id, "q_") {
+				closed = false
+				break
+			}
+		}
+		if closed {
+			if x.methCache == nil {
+				x.methCache = map[string]string{}
+			}
+			c, ok := x.methCache[out]
+			if !ok {
+				c = x.vc.freshConst("meth_"+mangle(method), sort)
+				x.vc.axiom(mkEq(c, out))
+				x.methCache[out] = c
+			}
+			return Term{S: c, Sort: sort, T: resT}, true
+		}
 	}
 	return Term{S: out, Sort: sort, T: resT}, true
 }
